@@ -29,8 +29,11 @@ Apply(results) == \E r \in results : st' = r.st /\ dead' = dead \cup r.failed
 \* the responsive holder advertises everything the node lacks
 Advertise1 == LET L == {<<k, T1>> : k \in {j \in Key : held[j] = 0}} IN
               /\ L # {} /\ Apply(AddKeys(st, 1, L, held)) /\ UNCHANGED held
+\* (other holders do not produce an endless stream of new versions of keys the node already holds:
+\*  with a bounded parallel-fetch budget such a stream of closer keys could starve farther ones for ever)
 AdvertiseOther == \E h \in Holder \ ({1} \cup dead), L \in Lists :
-                     Apply(AddKeys(st, h, L, held)) /\ UNCHANGED held
+                     /\ \A x \in L : held[x[1]] = 0
+                     /\ Apply(AddKeys(st, h, L, held)) /\ UNCHANGED held
 \* a started fetch completes: the record is stored and the fetcher is told
 Complete(e) == /\ e \in st.og /\ e \notin st.ogx
                /\ held' = [held EXCEPT ![e.k] = e.t]
